@@ -493,6 +493,30 @@ theorem sent_payloads_fit_lem (P seq : Nat) (m : Bytes) (hP : 0 < P) (ds : List 
   have := key.1
   simp [Dg.encode, be32, be16]; omega
 
+/-! ### byte level: header codec composed with reassembly -/
+
+theorem runBytes_encode_lem (rb : RB) (tr : List (Nat × Dg))
+    (hfit : ∀ x ∈ tr, x.2.seq < 4294967296 ∧ x.2.maxIdx < 65536 ∧ x.2.idx < 65536) :
+    runBytes rb (tr.map fun x => (x.1, x.2.encode)) = runDg rb tr := by
+  induction tr generalizing rb with
+  | nil => rfl
+  | cons x r ih =>
+    obtain ⟨now, d⟩ := x
+    have hx := hfit (now, d) (List.mem_cons_self ..)
+    simp only [List.map_cons, runBytes, runDg, RB.receive, header_roundtrip_lem d hx.1 hx.2.1 hx.2.2]
+    rw [ih _ (fun y hy => hfit y (List.mem_cons_of_mem _ hy))]
+
+theorem wire_reassembly_lem (P : Nat) (msgOf : Nat → Bytes) (segsOf : Nat → List Dg)
+    (tr : List (Nat × Dg)) (expiry : Nat) (g : Genuine P msgOf segsOf (tr.map (·.2)))
+    (hseq : ∀ x ∈ tr, x.2.seq < 4294967296) :
+    runBytes ⟨[], expiry⟩ (tr.map fun x => (x.1, x.2.encode)) = spec msgOf segsOf [] (tr.map (·.2)) := by
+  rw [runBytes_encode_lem, reassembly_lem P msgOf segsOf tr expiry g]
+  intro x hx
+  have hm : x.2 ∈ tr.map (·.2) := List.mem_map.2 ⟨x, hx, rfl⟩
+  have hs := g.segs x.2.seq (List.mem_map.2 ⟨x.2, hm, rfl⟩)
+  have := sent_headers_fit_lem P x.2.seq (msgOf x.2.seq) (segsOf x.2.seq) hs x.2 (g.mem x.2 hm)
+  exact ⟨hseq x hx, this.1, this.2.1⟩
+
 /-! ### spec-only facts -/
 
 /-- the outputs of `spec` that are messages of sequence number `s` -/
